@@ -153,5 +153,20 @@ MANIFEST_TEXT.update({
     },
 })
 
+MANIFEST_TEXT.update({
+    "C17": {
+        "engine": "cbmc-c",
+        "level": "Translation validation of the tool's OUTPUT, C mode: API models -> cbindgen-shaped raw headers -> the real "
+                 "cglue-bindgen binary (built from /repo) -> generated C harness with mock vtables -> CBMC decides, for all "
+                 "argument values and object contents, that each emitted wrapper calls exactly its slot of that object's vtable "
+                 "once with container and arguments unchanged and returns its result; consuming wrappers and drop helpers "
+                 "release instance and context exactly once with a context clone alive during the call; every vtable entry must "
+                 "have a callable wrapper. Found: a function name shared by two traits of one group got only one wrapper (fixed).",
+        "note": "C mode only (CBMC's C++ front end cannot take the generated C++); header shapes bounded by the synthesizer's "
+                "grammar; wrappers returning the container type are outside.",
+        "technique": "CBMC on C harnesses over the header emitted by the real post-processor; gcc replay of counterexamples",
+    },
+})
+
 NOT_YET = {k: "check under construction at this commit (planned in DESIGN.md section 5); not claimed yet" for k in
-           ["C17"]}
+           []}
